@@ -7,7 +7,7 @@
 (***************************************************************************)
 EXTENDS BvLane, IEEE
 
-CmpOps == {"eq", "neq", "lt", "le", "gt", "ge", "op==", "op!=", "op<", "op<=", "op>", "op>="}
+CmpOps == {"eq", "neq", "lt", "le", "gt", "ge", "op==", "op!=", "op<", "op<=", "op>", "op>=", "op!"}
 \* kind = "int": S = signedness;  kind = "float": f = format
 CmpInt(op, S, x, y) ==
   CASE op \in {"eq", "op=="}  -> x = y
@@ -16,6 +16,7 @@ CmpInt(op, S, x, y) ==
     [] op \in {"le", "op<="}  -> VLe(S, x, y)
     [] op \in {"gt", "op>"}   -> VLt(S, y, x)
     [] op \in {"ge", "op>="}  -> VLe(S, y, x)
+    [] op = "op!"              -> IsZero(x)                         \* batch::operator!: x == 0
 CmpFloat(op, f, x, y) ==
   CASE op \in {"eq", "op=="}  -> FEq(f, x, y)
     [] op \in {"neq", "op!="} -> FNe(f, x, y)
@@ -23,6 +24,7 @@ CmpFloat(op, f, x, y) ==
     [] op \in {"le", "op<="}  -> FLe(f, x, y)
     [] op \in {"gt", "op>"}   -> FLt(f, y, x)
     [] op \in {"ge", "op>="}  -> FLe(f, y, x)
+    [] op = "op!"              -> IsZeroF(f, x)
 
 B2I(b) == IF b THEN 1 ELSE 0
 \* ---- Boolean algebra on masks (sequences of 0/1 of equal length) -------------------------------
